@@ -131,8 +131,13 @@ impl StringPoolBuilder {
     ) -> io::Result<StringPool> {
         let mut strings = Vec::<(String, u16)>::new();
         for (length, refcount) in self.lengths_and_refcounts.into_iter() {
-            let mut buffer = vec![0u8; length as usize];
-            reader.read_exact(&mut buffer)?;
+            // Don't trust the length for the allocation; read what is
+            // actually there.
+            let mut buffer = Vec::<u8>::new();
+            reader.by_ref().take(length as u64).read_to_end(&mut buffer)?;
+            if buffer.len() != length as usize {
+                return Err(io::ErrorKind::UnexpectedEof.into());
+            }
             strings.push((self.codepage.decode(&buffer), refcount));
         }
         Ok(StringPool {
